@@ -1,11 +1,11 @@
 --------------------------------- MODULE APA_Writers ---------------------------------
-\* COVERS: {"mc": "MC_Writers", "actions": ["New", "Write", "EditScenario"], "devs": ["DEV_GlobalPrecision", "DEV_AccumulatingRoot", "DEV_NoTruncate", "DEV_NetworkCached"]}
+\* COVERS: {"mc": "MC_Writers", "actions": ["New", "Write", "EditScenario", "FailedWrite"], "devs": ["DEV_GlobalPrecision", "DEV_AccumulatingRoot", "DEV_NoTruncate", "DEV_NetworkCached", "DEV_FailedWriteKeepsDoc"]}
 (* C15, UNBOUNDED histories: typed (Apalache) transcription of MC_Writers + Writers WITHOUT the step       *)
 (* counter (`steps`, MaxSteps): any number of write calls, in any interleaving with the construction of    *)
 (* up to MaxWriters writers (the universe: MaxWriters = 3, Precisions = {2, 6}, Paths = {"a", "b"}, a scenario  *)
 (* of 1..MaxLanelets = 2 lanelets).                                                                        *)
 (* `act` is kept (PropOwnInputs reads it).  Obligations as in APA_ScenarioStore.tla; deviation constants   *)
-(* are chosen by --cinit (CInit: all FALSE; CInitDev1..4: exactly one TRUE).                               *)
+(* are chosen by --cinit (CInit: all FALSE; CInitDev1..5: exactly one TRUE).                               *)
 EXTENDS Integers, Sequences, FiniteSets, Apalache
 
 (*
@@ -24,14 +24,18 @@ CONSTANTS
     \* @type: Bool;
     DEV_NoTruncate,
     \* @type: Bool;
-    DEV_NetworkCached
+    DEV_NetworkCached,
+    \* @type: Bool;
+    DEV_FailedWriteKeepsDoc
 
-Dev(a, b, c, d) == DEV_GlobalPrecision = a /\ DEV_AccumulatingRoot = b /\ DEV_NoTruncate = c /\ DEV_NetworkCached = d
-CInit     == Dev(FALSE, FALSE, FALSE, FALSE)
-CInitDev1 == Dev(TRUE, FALSE, FALSE, FALSE)
-CInitDev2 == Dev(FALSE, TRUE, FALSE, FALSE)
-CInitDev3 == Dev(FALSE, FALSE, TRUE, FALSE)
-CInitDev4 == Dev(FALSE, FALSE, FALSE, TRUE)
+Dev(a, b, c, d, e) == /\ DEV_GlobalPrecision = a /\ DEV_AccumulatingRoot = b /\ DEV_NoTruncate = c /\ DEV_NetworkCached = d
+                      /\ DEV_FailedWriteKeepsDoc = e
+CInit     == Dev(FALSE, FALSE, FALSE, FALSE, FALSE)
+CInitDev1 == Dev(TRUE, FALSE, FALSE, FALSE, FALSE)
+CInitDev2 == Dev(FALSE, TRUE, FALSE, FALSE, FALSE)
+CInitDev3 == Dev(FALSE, FALSE, TRUE, FALSE, FALSE)
+CInitDev4 == Dev(FALSE, FALSE, FALSE, TRUE, FALSE)
+CInitDev5 == Dev(FALSE, FALSE, FALSE, FALSE, TRUE)
 
 MaxWriters == 3
 Precisions == {2, 6}
@@ -52,8 +56,11 @@ VARIABLES
     \* @type: Int;
     nlan,
     \* @type: Seq(Int);
-    wnet
-vars == <<writers, files, gprec, tree, act, nlan, wnet>>
+    wnet,
+    \* per writer: documents left over from writes that raised
+    \* @type: Seq(Int);
+    pend
+vars == <<writers, files, gprec, tree, act, nlan, wnet, pend>>
 
 (* ---- Writers.tla ------------------------------------------------------------------------------------ *)
 Formats == {"xml", "pb"}
@@ -72,7 +79,7 @@ W == 1..MaxWriters
 \* @type: (Str, Int, Str, Str, Str, Str, Int) => $act;
 A(op, w, path, mode, kind, fmt, d) == [op |-> op, w |-> w, path |-> path, mode |-> mode, kind |-> kind, fmt |-> fmt, d |-> d]
 Init == /\ writers = <<>> /\ files = [p \in {} |-> NoFile] /\ gprec = 4 /\ tree = <<>>
-        /\ nlan = 1 /\ wnet = <<>>
+        /\ nlan = 1 /\ wnet = <<>> /\ pend = <<>>
         /\ act = A("init", 0, "", "", "", "", 0)
 
 \* @type: $content => Int;
@@ -83,7 +90,7 @@ Garbled == [fmt |-> "garbled", digits |-> 0, copies |-> 0, pp |-> 0, nl |-> 0]
 New(fmt, d) ==
     /\ Len(writers) < MaxWriters
     /\ writers' = Append(writers, [fmt |-> fmt, d |-> d]) /\ tree' = Append(tree, [n |-> 0, pp |-> 0])
-    /\ gprec' = d /\ UNCHANGED <<files, nlan>> /\ wnet' = Append(wnet, 0)
+    /\ gprec' = d /\ UNCHANGED <<files, nlan>> /\ wnet' = Append(wnet, 0) /\ pend' = Append(pend, 0)
     /\ act' = A("new", Len(writers) + 1, "", "", "", fmt, d)
 
 Write(w, path, mode, kind) ==
@@ -93,25 +100,34 @@ Write(w, path, mode, kind) ==
               ELSE [n |-> 1, pp |-> IF kind = "full" THEN 1 ELSE 0]
         content == [fmt |-> wr.fmt,
                     digits |-> IF wr.fmt = "xml" THEN (IF DEV_GlobalPrecision THEN gprec ELSE wr.d) ELSE 0,
-                    copies |-> t1.n, pp |-> t1.pp,
+                    copies |-> t1.n + (IF wr.fmt = "xml" THEN pend[w] ELSE 0), pp |-> t1.pp,
                     nl |-> IF DEV_NetworkCached /\ wnet[w] # 0 THEN wnet[w] ELSE nlan]
         onDisk == IF DEV_NoTruncate /\ path \in DOMAIN files /\ Size(files[path]) > Size(content)
                   THEN Garbled ELSE content
     IN /\ w \in 1..Len(writers)
-       /\ IF Skipped(files, path, mode) THEN UNCHANGED <<files, tree, wnet>>
+       /\ IF Skipped(files, path, mode) THEN UNCHANGED <<files, tree, wnet, pend>>
           ELSE /\ files' = [p \in DOMAIN files \cup {path} |-> IF p = path THEN onDisk ELSE files[p]]
                /\ tree' = [tree EXCEPT ![w] = t1]
                /\ wnet' = [wnet EXCEPT ![w] = IF @ = 0 THEN nlan ELSE @]
+               /\ pend' = [pend EXCEPT ![w] = 0]
        /\ UNCHANGED <<writers, gprec, nlan>>
        /\ act' = A("write", w, path, mode, kind, wr.fmt, wr.d)
 
 \* the user edits the scenario the writers reference (a lanelet is added)
-EditScenario == /\ nlan < MaxLanelets /\ nlan' = nlan + 1 /\ UNCHANGED <<writers, files, gprec, tree, wnet>>
+EditScenario == /\ nlan < MaxLanelets /\ nlan' = nlan + 1 /\ UNCHANGED <<writers, files, gprec, tree, wnet, pend>>
                 /\ act' = A("edit", 0, "", "", "", "", 0)
+
+\* a write into a directory that does not exist raises; nothing is written and nothing may stay behind in the writer
+FailedWrite(w, kind) ==
+    /\ w \in 1..Len(writers)
+    /\ pend' = [pend EXCEPT ![w] = IF DEV_FailedWriteKeepsDoc THEN @ + 1 ELSE 0]
+    /\ UNCHANGED <<writers, files, gprec, tree, nlan, wnet>>
+    /\ act' = A("fail", w, "", "", kind, writers[w].fmt, writers[w].d)
 
 \* NO step counter
 Next == \/ \E fmt \in Formats, d \in Precisions : New(fmt, d)
         \/ EditScenario
+        \/ \E w \in W, k \in Kinds : FailedWrite(w, k)
         \/ \E w \in W, p \in Paths, m \in Modes, k \in Kinds : Write(w, p, m, k)
 
 (* ---- the contract ----------------------------------------------------------------------------------- *)
@@ -124,12 +140,12 @@ PropAct == ActOwnInputs
 
 (* ---- the inductive invariant ------------------------------------------------------------------------ *)
 TypeOK ==
-    /\ Len(writers) <= MaxWriters /\ Len(tree) = Len(writers) /\ Len(wnet) = Len(writers)
+    /\ Len(writers) <= MaxWriters /\ Len(tree) = Len(writers) /\ Len(wnet) = Len(writers) /\ Len(pend) = Len(writers)
     /\ nlan \in 1..MaxLanelets
     /\ \A i \in DOMAIN writers : writers[i].fmt \in Formats /\ writers[i].d \in Precisions
     /\ DOMAIN files \subseteq Paths
     /\ gprec \in Precisions \cup {4}
-    /\ act.op \in {"init", "new", "write", "edit"} /\ act.w \in 0..MaxWriters
+    /\ act.op \in {"init", "new", "write", "edit", "fail"} /\ act.w \in 0..MaxWriters
 IndInv ==
     /\ TypeOK
     \* the process-global precision is the precision of the writer constructed last
@@ -138,13 +154,15 @@ IndInv ==
     /\ \A i \in DOMAIN tree : tree[i].n \in {0, 1} /\ tree[i].pp \in {0, 1} /\ tree[i].pp <= tree[i].n
     \* network size a writer saw at its first write: none yet, or a size the scenario had then (the scenario only grows)
     /\ \A i \in DOMAIN wnet : wnet[i] \in 0..nlan
+    \* nothing of a raising write stays behind in the writer (with the deviation on: any number of left-over documents)
+    /\ \A i \in DOMAIN pend : pend[i] >= 0 /\ (~DEV_FailedWriteKeepsDoc => pend[i] = 0)
     \* files and writers: every file on disk is what ONE constructed writer produces from its own inputs (the writer's
     \* format / precision, the kind of the call, the scenario as it was at the time of that write)
     /\ \A p \in DOMAIN files : \E i \in DOMAIN writers, k \in Kinds, nl \in 1..MaxLanelets :
             nl <= nlan /\ files[p] = F(writers[i], k, nl)
 
 IndInit ==
-    /\ writers = Gen(MaxWriters) /\ tree = Gen(MaxWriters) /\ wnet = Gen(MaxWriters) /\ nlan = Gen(1)
+    /\ writers = Gen(MaxWriters) /\ tree = Gen(MaxWriters) /\ wnet = Gen(MaxWriters) /\ pend = Gen(MaxWriters) /\ nlan = Gen(1)
     /\ files = Gen(2)
     /\ gprec = Gen(1)
     /\ act = Gen(1)
